@@ -19,7 +19,7 @@
    shared write and every read of a written location is inside it". *)
 From Coq Require Import List Permutation.
 From Regal Require Import Model.Sched Model.BaseCache Proofs.Sched Proofs.InputPaths Proofs.LinterShape
-  Proofs.BaseCache.
+  Proofs.BaseCache Model.SchedVariants Proofs.SchedVariants.
 Import ListNotations.
 Local Open Scope nat_scope.
 
@@ -127,6 +127,44 @@ Theorem c01_input_schedule_independent :
   new_input (sh st1) = new_input (sh st2) /\ new_input (sh st1) = input_from_paths parse paths1.
 Proof. exact input_schedule_independent. Qed.
 Print Assumptions c01_input_schedule_independent.
+
+(* The order of the PATH ARGUMENTS (directories and files; Model/Discover.v of C02 is config.walkPaths +
+   filepath.WalkDir + the filter on a file tree, [lint_tree] the run from the arguments to the report):
+   the whole run -- which files are found, FileNames, the report, or the error -- is a function of the
+   SET of arguments; their order and repetitions are irrelevant. *)
+Theorem c01_argument_order_independent :
+  forall (skips : list str) (ext : str) (excl : str -> str -> bool) (parses : str -> bool)
+         (res : str -> bool -> result) (aggreport : amap -> dmap -> list viol)
+         (root : node) (args1 args2 ignore : list str),
+  (forall a, In a args1 <-> In a args2) ->
+  lint_tree skips ext excl parses res aggreport root args1 ignore
+  = lint_tree skips ext excl parses res aggreport root args2 ignore.
+Proof. exact lint_tree_argument_set. Qed.
+Print Assumptions c01_argument_order_independent.
+
+(* ... which fails for an argument loop that skips an argument whose cleaned spelling has an EARLIER
+   argument as a string prefix (NOT the code; class of seeded change C01-4): in the tree with authz/m.rego
+   and authz-extra/e.rego, `authz authz-extra` finds one file and `authz-extra authz` both *)
+Theorem c01_argument_order_prefix_skip_refuted :
+  exists root a b f fs1 fs2,
+    walk_args_skip spec_skips spec_ext root [] [a; b] = DOk fs1
+    /\ walk_args_skip spec_skips spec_ext root [] [b; a] = DOk fs2
+    /\ In f fs2 /\ ~ In f fs1
+    /\ (forall g, In g fs2 <-> exists fs, walk_args spec_skips spec_ext root [a; b] = DOk fs /\ In g fs).
+Proof. exact walk_args_skip_order_dependent. Qed.
+Print Assumptions c01_argument_order_prefix_skip_refuted.
+
+(* [c01_merge_perm_equiv] needs the notices of EVERY worker: a merge that keeps the first non-empty
+   notice set (NOT the code; class of seeded change C01-3) gives rules_skipped 2 or 1 for the same two
+   files depending on who takes the mutex first, where [merge] gives 2 either way *)
+Theorem c01_first_notice_set_refuted :
+  exists r1 r2,
+    f_skipped (finalize (fun _ _ => []) None [] 2 (fold_left merge_first_notices [r1; r2] empty_report)) = 2
+    /\ f_skipped (finalize (fun _ _ => []) None [] 2 (fold_left merge_first_notices [r2; r1] empty_report)) = 1
+    /\ f_skipped (lint_seq (fun _ _ => []) None [] [r1; r2]) = 2
+    /\ f_skipped (lint_seq (fun _ _ => []) None [] [r2; r1]) = 2.
+Proof. exact merge_first_notices_order_dependent. Qed.
+Print Assumptions c01_first_notice_set_refuted.
 
 (* The process-wide base-document cache (internal/cache, Model/BaseCache.v; used when the language
    server passes WithBaseCache): in any history of Puts that store the document's own
